@@ -92,8 +92,12 @@ def oracle_c12(tr: Trace):
             got = _drained_after(tr, k)
             nxt = fins
             j = k + 1
-            while not nxt and j < len(tr.steps) and tr.steps[j].tag not in (0, 3, 4):
+            while not nxt and j < len(tr.steps) and tr.steps[j].tag not in (3, 4):
+                if tr.steps[j].tag == 0 and tr.steps[j].pdu["kind"] == codec.K_ACK:
+                    break
                 nxt = [e for e in tr.steps[j].ob["events"] if e[0] == 3]
+                if tr.steps[j].ob["fields"]["state"] == 0 or any(e[0] in (11, 14) for e in tr.steps[j].ob["events"]):
+                    break
                 j += 1
             if tr.cfg["ind"][3] and nxt:
                 e = nxt[0]
